@@ -103,7 +103,10 @@ theorem execS_ret_not_normal (M : Machine) (F : FnTable) (obj : HostVal) (depth 
       cases callWith (decide (depth ≥ maxCallDepth)) (fun b e o => execSs M F obj (depth + 1) f b e o) M F obj fn.str args env out <;> simp
     · rw [execS_ret depth f e env out (fun fn args he => hc ⟨fn, args, he⟩)]
       cases evalE M obj env e out with
-      | mk res o => cases res <;> simp
+      | mk res o =>
+        cases res with
+        | ok v => simp
+        | error x => simp only [failE]; split <;> simp
 
 /-- **A body whose code ends in OpReturn never falls off its end.** -/
 theorem endsRet_never_normal (M : Machine) (F : FnTable) (obj : HostVal) :
